@@ -82,17 +82,30 @@ def block_size_tables(ctx, prog):
     unused = [j for j in range(len(T)) if j not in used]
     ctx.ob(R, "LOG_DEBRUIJN_TABLE[((MIN<<i)*C mod 2^32)>>27] == i for all 31 valid sizes; the unused slot holds 0xff", not bad and len(T) == 32 and all(T[j] == 0xff for j in unused),
            "; ".join(bad[:3]) or "31 sizes map to 31 distinct slots, unused %s" % unused)
-    f = prog.fn("block_size::debruijn_index")
-    ctx.visit(f)
-    e = strip(Sym(f).local(0))
-    ok = e[0] == "bin" and e[1] == "Shr" and const_value(e[3]) == 27 and e[2][0] == "call" and e[2][1].endswith("wrapping_mul") \
-        and is_param(e[2][2][0], "block_size") and const_named(e[2][2][1], "block_size::LOG_DEBRUIJN_CONSTANT")
-    ctx.ob(R, "debruijn_index(bs) = (bs.wrapping_mul(LOG_DEBRUIJN_CONSTANT)) >> 27", ok, show(e), f.loc())
+    def is_formula(e):
+        e = strip(e)
+        while e[0] == "cast":
+            e = strip(e[1])
+        return e[0] == "bin" and e[1] == "Shr" and const_value(e[3]) == 27 and strip(e[2])[0] == "call" and strip(e[2])[1].endswith("wrapping_mul") \
+            and is_param(strip(e[2])[2][0], "block_size") and const_named(strip(e[2])[2][1], "block_size::LOG_DEBRUIJN_CONSTANT")
     g = prog.fn("block_size::log_from_valid_internal")
     ctx.visit(g)
     e = Sym(g).local(0)
-    ok = e[0] == "index" and const_named(e[1], "block_size::LOG_DEBRUIJN_TABLE") and e[2][0] == "call" and e[2][1].endswith("block_size::debruijn_index") and is_param(e[2][2][0], "block_size")
-    ctx.ob(R, "log_from_valid_internal(bs) = LOG_DEBRUIJN_TABLE[debruijn_index(bs)]", ok, show(e), g.loc())
+    idx = strip(e[2]) if e[0] == "index" else None
+    while idx is not None and idx[0] == "cast":
+        idx = strip(idx[1])
+    helper = None
+    if idx is not None and idx[0] == "call" and is_param(idx[2][0], "block_size") and len(idx[2]) == 1:
+        helper = prog.get(idx[1])
+    if helper is not None:
+        # the index is computed by a one-expression helper (`debruijn_index`)
+        ctx.visit(helper)
+        he = strip(Sym(helper).local(0))
+        ctx.ob(R, "debruijn_index(bs) = (bs.wrapping_mul(LOG_DEBRUIJN_CONSTANT)) >> 27", is_formula(he), show(he), helper.loc())
+        ok = e[0] == "index" and const_named(e[1], "block_size::LOG_DEBRUIJN_TABLE")
+    else:
+        ok = e[0] == "index" and const_named(e[1], "block_size::LOG_DEBRUIJN_TABLE") and idx is not None and is_formula(idx)
+    ctx.ob(R, "log_from_valid_internal(bs) = LOG_DEBRUIJN_TABLE[(bs.wrapping_mul(LOG_DEBRUIJN_CONSTANT)) >> 27] (directly or through the index helper)", ok, show(e), g.loc())
 
 
 def fnv_table(ctx, prog):
